@@ -11,6 +11,12 @@ package v5wire
 // reordering, replaying wire. A model predicts for every delivery whether the
 // receiver holds the matching session / challenge. Every honest packet is also
 // decoded by an independent observer (c45_wire_test.go).
+//
+// A node that received a WHOAREYOU may answer it later: in between its codec
+// decodes other packets (a crossing request of the peer, a packet of a third
+// node, a replay, garbage, a packet of a stranger). Every packet object a codec
+// returned is frozen (deep copy) at decode time and must still equal that copy
+// after every later Decode/Encode of the same codec (c45Held).
 
 import (
 	"bytes"
@@ -20,6 +26,7 @@ import (
 	"math/big"
 	"math/rand"
 	"net"
+	"os"
 	"strings"
 	"sync"
 	"testing"
@@ -47,6 +54,7 @@ type c45Peer struct {
 	callNode map[*c45Peer]*enode.Node // record used when calling a peer
 	table    map[*c45Peer]*enode.Node // record reported in WHOAREYOU (may be nil / stale)
 	calls    map[Nonce]*c45Call
+	decodes  int // number of Decode calls on c so far
 }
 
 type c45Call struct {
@@ -72,6 +80,27 @@ type c45Pkt struct {
 	seq       uint64     // handshake: sender's record seq at encode time
 	delivered int
 	forged    bool // produced in reaction to a tampered packet: must never succeed
+	delayed   int  // handshake: Decode calls on the sender's codec between receiving the challenge and answering it
+}
+
+// c45Held is a packet object (and node) returned by by.c.Decode together with
+// its deep copy taken right after that call.
+type c45Held struct {
+	by     *c45Peer
+	what   string
+	pkt    Packet
+	node   *enode.Node
+	frozen []byte
+}
+
+// c45Deferred is a received, matched but not yet answered WHOAREYOU: x will
+// re-send call as handshake packet to y using the decoded challenge w.
+type c45Deferred struct {
+	x, y    *c45Peer
+	w, orig *Whoareyou
+	cdata   []byte // w.ChallengeData as decoded
+	call    *c45Call
+	at      int // x.decodes at receipt
 }
 
 type c45Net struct {
@@ -90,6 +119,12 @@ type c45Net struct {
 	resetSeen                                                         bool
 	kinds                                                             map[byte]bool
 	classes                                                           map[string]int
+
+	held       []*c45Held
+	deferred   []*c45Deferred
+	forceDefer bool // the next matched WHOAREYOU is not answered at once
+	honestOnly bool
+	delayedOK  int // handshakes accepted whose answer was encoded after >= 1 other Decode
 }
 
 func (n *c45Net) class(label string) { n.classes[label]++ }
@@ -330,14 +365,91 @@ func (n *c45Net) snapshot() c45Snapshot {
 }
 
 // ---------------------------------------------------------------------------
+// Aliasing oracle: what a codec returned from Decode belongs to the caller.
+
+// c45NoAlias switches the aliasing oracle off (used only to see whether a
+// mutation probe is also caught by the behavioural oracles alone).
+var c45NoAlias = os.Getenv("VERIF_C45_NOALIAS") != ""
+
+// c45Freeze renders every field of a decoded packet (and the node returned with
+// it) into fresh memory. Whoareyou.Node is set by the caller, not by Decode.
+func c45Freeze(p Packet, node *enode.Node) []byte {
+	var b bytes.Buffer
+	switch v := p.(type) {
+	case nil:
+		b.WriteString("nil")
+	case *Whoareyou:
+		fmt.Fprintf(&b, "WHOAREYOU nonce=%x idnonce=%x seq=%d challenge-data=%x", v.Nonce[:], v.IDNonce[:], v.RecordSeq, v.ChallengeData)
+	case *Unknown:
+		fmt.Fprintf(&b, "UNKNOWN nonce=%x", v.Nonce[:])
+	case *Ping, *Pong, *Findnode, *TalkRequest, *TalkResponse:
+		fmt.Fprintf(&b, "%s %x", p.Name(), c45RefMessage(p))
+	case *Nodes:
+		fmt.Fprintf(&b, "NODES %x", c45RefMessage(p))
+		for _, r := range v.Nodes {
+			pairs, _ := rlp.EncodeToBytes(r.AppendElements(nil))
+			fmt.Fprintf(&b, " [seq=%d sig=%x pairs=%x]", r.Seq(), r.Signature(), pairs)
+		}
+	default:
+		enc, _ := rlp.EncodeToBytes(p)
+		fmt.Fprintf(&b, "%s %x", p.Name(), enc)
+	}
+	if node != nil {
+		rec, _ := rlp.EncodeToBytes(node.Record())
+		fmt.Fprintf(&b, " node id=%x seq=%d record=%x", node.ID().Bytes(), node.Seq(), rec)
+	}
+	return b.Bytes()
+}
+
+// checkHeld: the objects by's codec returned earlier still equal their copies.
+func (n *c45Net) checkHeld(by *c45Peer, where string) {
+	if c45NoAlias {
+		return
+	}
+	for _, h := range n.held {
+		if h.by != by {
+			continue
+		}
+		if now := c45Freeze(h.pkt, h.node); !bytes.Equal(now, h.frozen) {
+			n.fatalf("a packet returned by %s.Decode (%s) changed after a later call on the same codec (%s):\nat decode time: %s\nnow:            %s",
+				by.name, h.what, where, h.frozen, now)
+		}
+	}
+}
+
+// decode is y.c.Decode plus the aliasing oracle.
+func (n *c45Net) decode(y *c45Peer, data []byte, addr, what string) (enode.ID, *enode.Node, Packet, error) {
+	in := bytes.Clone(data)
+	src, node, dec, err := y.c.Decode(data, addr)
+	y.decodes++
+	if !bytes.Equal(in, data) {
+		n.fatalf("%s.Decode(%s) modified its input:\n%x\n%x", y.name, what, in, data)
+	}
+	n.checkHeld(y, "Decode "+what)
+	if err == nil && dec != nil && !c45NoAlias {
+		n.held = append(n.held, &c45Held{by: y, what: what, pkt: dec, node: node, frozen: c45Freeze(dec, node)})
+	}
+	return src, node, dec, err
+}
+
+// encode is x.c.Encode plus the aliasing oracle; the packet bytes are copied
+// (the returned slice is the codec's output buffer).
+func (n *c45Net) encode(x *c45Peer, id enode.ID, addr string, msg Packet, ch *Whoareyou) ([]byte, Nonce, error) {
+	enc, nonce, err := x.c.Encode(id, addr, msg, ch)
+	enc = bytes.Clone(enc)
+	n.checkHeld(x, "Encode "+msg.Name())
+	return enc, nonce, err
+}
+
+// ---------------------------------------------------------------------------
 // Honest protocol steps.
 
 func (n *c45Net) send(x, y *c45Peer, msg Packet) {
-	enc, nonce, err := x.c.Encode(y.id, y.addr, msg, nil)
+	enc, nonce, err := n.encode(x, y.id, y.addr, msg, nil)
 	if err != nil {
 		n.fatalf("%s.Encode(%s) to %s: %v", x.name, msg.Name(), y.name, err)
 	}
-	p := &c45Pkt{from: x, to: y, data: bytes.Clone(enc), nonce: nonce, msg: msg}
+	p := &c45Pkt{from: x, to: y, data: enc, nonce: nonce, msg: msg}
 	if g := n.sess[x][y]; g != 0 {
 		p.kind, p.gen = "msg", g
 	} else {
@@ -354,7 +466,7 @@ func (n *c45Net) send(x, y *c45Peer, msg Packet) {
 func (n *c45Net) deliver(p *c45Pkt) {
 	x, y := p.from, p.to
 	p.delivered++
-	src, node, dec, err := y.c.Decode(p.data, x.addr)
+	src, node, dec, err := n.decode(y, p.data, x.addr, fmt.Sprintf("#%s %s %s->%s", c45PktID(n, p), p.kind, x.name, y.name))
 	n.gcModel(y)
 	n.logf("deliver #%s %s->%s %s gen=%d: err=%v dec=%T", c45PktID(n, p), x.name, y.name, p.kind, p.gen, err, dec)
 	switch p.kind {
@@ -395,7 +507,20 @@ func (n *c45Net) deliver(p *c45Pkt) {
 		if !ok || w.Nonce != p.ch.Nonce || w.IDNonce != p.ch.IDNonce || w.RecordSeq != p.ch.RecordSeq || !bytes.Equal(w.ChallengeData, p.ch.ChallengeData) {
 			n.fatalf("%s decoded WHOAREYOU from %s as %#v, sent %#v", y.name, x.name, dec, p.ch)
 		}
-		n.answer(y, x, w, p.ch, false)
+		// y is UDPv5.handleWhoareyou here: match the call, then re-send it as handshake
+		// packet -- at once, or after its codec has handled other packets.
+		call := n.accept(y, x, w)
+		if call == nil {
+			return
+		}
+		d := &c45Deferred{x: y, y: x, w: w, orig: p.ch, cdata: bytes.Clone(w.ChallengeData), call: call, at: y.decodes}
+		if n.forceDefer || rapid.IntRange(0, 5).Draw(n.rt, "deferAnswer") == 0 {
+			n.forceDefer = false
+			n.deferred = append(n.deferred, d)
+			n.logf("%s keeps the challenge of %s and answers later", y.name, x.name)
+			return
+		}
+		n.encodeAnswer(d, false)
 	case "handshake":
 		cur := n.pendValid(y, x)
 		want := cur != nil && cur.ch == p.ch && !p.forged
@@ -450,6 +575,10 @@ func (n *c45Net) deliver(p *c45Pkt) {
 		if n.resetSeen {
 			n.hsAfterReset++
 		}
+		if p.delayed > 0 {
+			n.delayedOK++
+			n.class(fmt.Sprintf("handshake accepted whose answer was encoded %d Decode calls after the WHOAREYOU", min(p.delayed, 4)))
+		}
 	}
 }
 
@@ -477,7 +606,7 @@ func (n *c45Net) challenge(y, x *c45Peer, unk *Unknown) {
 			ch.Node, ch.RecordSeq = kn, kn.Seq()
 		}
 	}
-	enc, nonce, err := y.c.Encode(x.id, x.addr, ch, nil)
+	enc, nonce, err := n.encode(y, x.id, x.addr, ch, nil)
 	if err != nil {
 		n.fatalf("%s.Encode(WHOAREYOU) to %s: %v", y.name, x.name, err)
 	}
@@ -489,7 +618,7 @@ func (n *c45Net) challenge(y, x *c45Peer, unk *Unknown) {
 	} else {
 		n.class("WHOAREYOU resent for a pending challenge")
 	}
-	p := &c45Pkt{from: y, to: x, kind: "whoareyou", data: bytes.Clone(enc), nonce: nonce, ch: ch}
+	p := &c45Pkt{from: y, to: x, kind: "whoareyou", data: enc, nonce: nonce, ch: ch}
 	n.logf("%s->%s WHOAREYOU resend=%v seq=%d nonce=%x (#%d)", y.name, x.name, cur != nil, ch.RecordSeq, nonce[:], len(n.pool))
 	n.observe(p)
 	n.pool = append(n.pool, p)
@@ -499,29 +628,141 @@ func (n *c45Net) challenge(y, x *c45Peer, unk *Unknown) {
 // orig is the challenger's own object (identity of the challenge); forged marks
 // a reaction to a tampered WHOAREYOU.
 func (n *c45Net) answer(x, y *c45Peer, w *Whoareyou, orig *Whoareyou, forged bool) {
+	call := n.accept(x, y, w)
+	if call == nil {
+		return
+	}
+	n.encodeAnswer(&c45Deferred{x: x, y: y, w: w, orig: orig, cdata: bytes.Clone(w.ChallengeData), call: call, at: x.decodes}, forged)
+}
+
+// accept matches a received WHOAREYOU with the call it challenges.
+func (n *c45Net) accept(x, y *c45Peer, w *Whoareyou) *c45Call {
 	call := x.calls[w.Nonce]
 	if call == nil || call.handshakeCount > 0 || call.to != y {
 		n.logf("%s ignores WHOAREYOU (no matching call)", x.name)
-		return
+		return nil
 	}
 	call.handshakeCount++
+	return call
+}
+
+// encodeAnswer re-sends the challenged call as handshake packet, using the
+// WHOAREYOU object x's codec returned (possibly several Decode calls ago).
+func (n *c45Net) encodeAnswer(d *c45Deferred, forged bool) {
+	x, y, w, call := d.x, d.y, d.w, d.call
 	w.Node = x.callNode[y]
 	self := x.ln.Node()
-	enc, nonce, err := x.c.Encode(y.id, y.addr, call.msg, w)
+	enc, nonce, err := n.encode(x, y.id, y.addr, call.msg, w)
 	if err != nil {
 		n.fatalf("%s.Encode(handshake %s) to %s: %v", x.name, call.msg.Name(), y.name, err)
 	}
 	n.gen++
 	n.sess[x][y] = n.gen // the initiator stores its session when encoding
-	p := &c45Pkt{from: x, to: y, kind: "handshake", data: bytes.Clone(enc), nonce: nonce, msg: call.msg, gen: n.gen, ch: orig, seq: self.Seq(), forged: forged}
+	p := &c45Pkt{from: x, to: y, kind: "handshake", data: enc, nonce: nonce, msg: call.msg, gen: n.gen, ch: d.orig, seq: self.Seq(), forged: forged,
+		delayed: x.decodes - d.at}
 	if w.RecordSeq < self.Seq() {
 		p.rec, _ = rlp.EncodeToBytes(self.Record())
 	}
 	x.calls[nonce] = call
-	n.logf("%s->%s handshake %s gen=%d record=%v forged=%v (#%d)", x.name, y.name, call.msg.Name(), n.gen, p.rec != nil, forged, len(n.pool))
-	// x answers what it saw (for a tampered WHOAREYOU: the tampered challenge data)
-	n.observeHandshake(p, w)
+	n.logf("%s->%s handshake %s gen=%d record=%v forged=%v after %d other Decode calls (#%d)", x.name, y.name, call.msg.Name(), n.gen, p.rec != nil, forged, p.delayed, len(n.pool))
+	// x answers what it received (for a tampered WHOAREYOU: the tampered challenge data)
+	n.observeHandshake(p, d.cdata, w.RecordSeq)
 	n.pool = append(n.pool, p)
+}
+
+// interleave: x's codec decodes one more packet while a challenge of y waits
+// for its answer.
+func (n *c45Net) interleave(rt *rapid.T, x, y *c45Peer) {
+	opts := []string{"crossing", "crossing", "third-node", "replay"}
+	if !n.honestOnly {
+		opts = append(opts, "garbage", "stranger")
+	}
+	kind := rapid.SampledFrom(opts).Draw(rt, "interleave")
+	var toX []*c45Pkt
+	for _, p := range n.pool {
+		if p.to == x {
+			toX = append(toX, p)
+		}
+	}
+	if kind == "replay" && len(toX) == 0 {
+		kind = "crossing"
+	}
+	n.class("interleaved: " + kind)
+	n.logf("interleave on %s: %s", x.name, kind)
+	switch kind {
+	case "crossing": // a request of the peer that crossed x's own on the wire
+		n.send(y, x, c45GenMsg(rt, n))
+		n.deliver(n.pool[len(n.pool)-1])
+	case "third-node":
+		for _, z := range n.peers {
+			if z != x && z != y {
+				n.send(z, x, c45GenMsg(rt, n))
+				n.deliver(n.pool[len(n.pool)-1])
+				break
+			}
+		}
+	case "replay":
+		n.deliver(rapid.SampledFrom(toX).Draw(rt, "interleaveReplay"))
+	case "garbage":
+		data := rapid.SliceOfN(rapid.Byte(), minPacketSize, 400).Draw(rt, "garbage")
+		n.adversarial("garbage", x, data, y.addr, &c45Pkt{from: y, to: x, kind: "garbage", data: data})
+	case "stranger": // a well-formed packet of a node x never heard of
+		key := n.prngKey()
+		sc := NewCodec(enode.NewLocalNode(c45DB(), key), key, &n.clock, nil)
+		enc, _, err := sc.Encode(x.id, x.addr, c45GenMsg(rt, n), nil)
+		if err != nil {
+			n.fatalf("VERIF-HARNESS-BUG: stranger cannot encode: %v", err)
+		}
+		data := bytes.Clone(enc)
+		n.adversarial("stranger", x, data, "10.0.0.9:30303", &c45Pkt{from: y, to: x, kind: "random", data: data})
+	}
+}
+
+// resetSessions drops all sessions of x (restart of x).
+func (n *c45Net) resetSessions(x *c45Peer) {
+	x.c.sc.sessions = lru.NewBasicLRU[sessionID, *session](1024)
+	for _, z := range n.peers {
+		n.sess[x][z] = 0
+	}
+	n.resets++
+	n.resetSeen = n.handshakes > 0
+	n.logf("reset sessions of %s", x.name)
+}
+
+// crossing: a challenge is answered only after the challenged node's codec has
+// decoded 1-3 other packets. Uses a challenge that already waits for its answer,
+// else starts a request without session and holds back the answer to its WHOAREYOU.
+func (n *c45Net) crossing(rt *rapid.T) {
+	if len(n.deferred) == 0 {
+		x, y := n.peers[0], n.peers[1]
+		if rapid.Bool().Draw(rt, "dirBA") {
+			x, y = y, x
+		}
+		if n.sess[x][y] != 0 {
+			n.resetSessions(x)
+		}
+		n.send(x, y, c45GenMsg(rt, n))
+		n.deliver(n.pool[len(n.pool)-1]) // y challenges x
+		if last := n.pool[len(n.pool)-1]; last.kind == "whoareyou" && last.to == x && last.delivered == 0 {
+			n.forceDefer = true
+			n.deliver(last)
+			n.forceDefer = false
+		}
+	}
+	if len(n.deferred) == 0 {
+		n.class("crossing: WHOAREYOU matched no open call")
+		return
+	}
+	i := rapid.IntRange(0, len(n.deferred)-1).Draw(rt, "deferredWhich")
+	d := n.deferred[i]
+	n.deferred = append(n.deferred[:i:i], n.deferred[i+1:]...)
+	for k := rapid.IntRange(1, 3).Draw(rt, "interleaved"); k > 0; k-- {
+		n.interleave(rt, d.x, d.y)
+	}
+	n.encodeAnswer(d, false)
+	if rapid.IntRange(0, 3).Draw(rt, "answerPrompt") != 0 {
+		n.deliver(n.pool[len(n.pool)-1])
+	}
 }
 
 // ---------------------------------------------------------------------------
@@ -530,7 +771,7 @@ func (n *c45Net) answer(x, y *c45Peer, w *Whoareyou, orig *Whoareyou, forged boo
 
 func (n *c45Net) adversarial(what string, y *c45Peer, data []byte, fromAddr string, p *c45Pkt) (Packet, error) {
 	before := n.snapshot()
-	_, _, dec, err := y.c.Decode(data, fromAddr)
+	_, _, dec, err := n.decode(y, data, fromAddr, "adversarial "+what)
 	n.gcModel(y)
 	n.faults++
 	cls := what
@@ -748,11 +989,11 @@ func (n *c45Net) misdeliver(rt *rapid.T, p *c45Pkt) {
 			return
 		}
 		msg := &Ping{ReqID: []byte{1}, ENRSeq: 1}
-		enc, _, err := x.c.Encode(c.id, y.addr, msg, nil)
+		enc, _, err := n.encode(x, c.id, y.addr, msg, nil)
 		if err != nil {
 			n.fatalf("Encode for the bystander id: %v", err)
 		}
-		n.adversarial("wrong-destination-id", y, bytes.Clone(enc), x.addr, &c45Pkt{from: x, to: y, kind: "random", data: enc})
+		n.adversarial("wrong-destination-id", y, enc, x.addr, &c45Pkt{from: x, to: y, kind: "random", data: enc})
 	}
 }
 
@@ -760,7 +1001,8 @@ func (n *c45Net) misdeliver(rt *rapid.T, p *c45Pkt) {
 
 var c45Actions = []string{"roundtrip", "roundtrip", "roundtrip", "roundtrip", "roundtrip", "send", "send", "send",
 	"deliver", "deliver", "deliver", "deliver", "deliver", "deliver", "replay", "reset", "reset", "clock", "bump",
-	"tamper", "tamper", "tamper", "misdeliver", "misdeliver", "impersonate", "replay-handshake"}
+	"tamper", "tamper", "tamper", "misdeliver", "misdeliver", "impersonate", "replay-handshake",
+	"crossing", "crossing", "crossing"}
 
 func (n *c45Net) attackChallenge(rt *rapid.T) bool {
 	if rapid.Bool().Draw(rt, "forgeIdentity") {
@@ -773,6 +1015,7 @@ func c45ExchangeProp(st *vs.S, honestOnly bool) func(rt *rapid.T) {
 	return func(rt *rapid.T) {
 		n := c45NewNet(rt)
 		defer n.close()
+		n.honestOnly = honestOnly
 		var c *vs.Case
 		if st != nil {
 			c = st.Case()
@@ -801,7 +1044,7 @@ func c45ExchangeProp(st *vs.S, honestOnly bool) func(rt *rapid.T) {
 					undelivered = append(undelivered, p)
 				}
 			}
-			if (act == "deliver" && len(undelivered) == 0) || (len(n.pool) == 0 && act != "clock" && act != "bump" && act != "reset") {
+			if (act == "deliver" && len(undelivered) == 0) || (len(n.pool) == 0 && act != "clock" && act != "bump" && act != "reset" && act != "crossing") {
 				act = "send"
 			}
 			trace = append(trace, act)
@@ -851,13 +1094,7 @@ func c45ExchangeProp(st *vs.S, honestOnly bool) func(rt *rapid.T) {
 				if rapid.Bool().Draw(rt, "resetB") {
 					x = b
 				}
-				x.c.sc.sessions = lru.NewBasicLRU[sessionID, *session](1024)
-				for _, y := range n.peers {
-					n.sess[x][y] = 0
-				}
-				n.resets++
-				n.resetSeen = n.handshakes > 0
-				n.logf("reset sessions of %s", x.name)
+				n.resetSessions(x)
 			case "clock":
 				d := rapid.SampledFrom([]time.Duration{300 * time.Millisecond, 600 * time.Millisecond, 1100 * time.Millisecond}).Draw(rt, "advance")
 				n.clock.Run(d)
@@ -884,13 +1121,7 @@ func c45ExchangeProp(st *vs.S, honestOnly bool) func(rt *rapid.T) {
 				x, y := h.from, h.to
 				if n.pendValid(y, x) == nil {
 					if n.sess[x][y] != 0 {
-						x.c.sc.sessions = lru.NewBasicLRU[sessionID, *session](1024)
-						for _, z := range n.peers {
-							n.sess[x][z] = 0
-						}
-						n.resets++
-						n.resetSeen = n.handshakes > 0
-						n.logf("reset sessions of %s", x.name)
+						n.resetSessions(x)
 					}
 					n.send(x, y, c45GenMsg(rt, n))
 					n.deliver(n.pool[len(n.pool)-1]) // y challenges x
@@ -905,13 +1136,7 @@ func c45ExchangeProp(st *vs.S, honestOnly bool) func(rt *rapid.T) {
 						x, y = b, a
 					}
 					if n.sess[x][y] != 0 {
-						x.c.sc.sessions = lru.NewBasicLRU[sessionID, *session](1024)
-						for _, z := range n.peers {
-							n.sess[x][z] = 0
-						}
-						n.resets++
-						n.resetSeen = n.handshakes > 0
-						n.logf("reset sessions of %s", x.name)
+						n.resetSessions(x)
 					}
 					n.send(x, y, c45GenMsg(rt, n))
 					n.deliver(n.pool[len(n.pool)-1])
@@ -919,6 +1144,8 @@ func c45ExchangeProp(st *vs.S, honestOnly bool) func(rt *rapid.T) {
 				}
 			case "misdeliver":
 				n.misdeliver(rt, n.pickAuthenticated(rt, "misWhich"))
+			case "crossing":
+				n.crossing(rt)
 			}
 			n.checkState(act)
 		}
@@ -932,6 +1159,7 @@ func c45ExchangeProp(st *vs.S, honestOnly bool) func(rt *rapid.T) {
 		c.Classf("resets=%s", c45Bucket(n.resets))
 		c.Classf("msgs-decoded=%s", c45Bucket(n.msgsDecoded))
 		c.Classf("adversarial=%s", c45Bucket(n.faults))
+		c.Classf("delayed-handshakes-accepted=%s", c45Bucket(n.delayedOK))
 		for k := range n.kinds {
 			c.Classf("decoded-kind-%d", k)
 		}
